@@ -186,8 +186,9 @@ def _same(a, b):
         return a is None and b is None
     if isinstance(a, float) and isinstance(b, float):
         return (a != a and b != b) or a == b
-    if isinstance(a, bool) or isinstance(b, bool):
-        return isinstance(a, bool) and isinstance(b, bool) and a == b
+    if isinstance(a, bool) and isinstance(b, bool):
+        return a == b
+    # (a bool captured in a numeric container is coerced to 0 / 1: unify_types_limited)
     if isinstance(a, (int, float)) and isinstance(b, (int, float)):
         return a == b
     if isinstance(a, (list, tuple)) and isinstance(b, (list, tuple)):
@@ -753,6 +754,36 @@ def run(ctx):
                 # the imputed type must be the declared one up to the documented ambiguities (int width, empty containers)
                 ctx.seen('imputed_vs_generated', 'same' if e2.dtype == t else 'differs')
         flush({'literal': info}, ('literal', str(t), repr(v)[:80]), info)
+
+    # ---- phase literal-corners: a fixed catalogue of corner values (every shard-0 run) ---------------
+    if ctx.shard == 0:
+        import numpy as np
+        from hail.utils import Interval, Struct
+
+        corners = [
+            [1, 2**31], [1, 2.5], [True, 2], [1, None, 3], [[1], [], [2.5]], [None, [None]], (1, 'a', None), ((), ((),)), {'a': 1, 'b': 2}, {'a': 1, 'b': 'x'},
+            {'a': Struct()}, {'a': ()}, [{'k': Struct()}, {'j': Struct()}], [{'k': ()}, {'j': ()}], {1: {'x': Struct()}, 2: {'y': Struct()}}, {Struct()}, {()},
+            Struct(a=1, b=Struct(c=[1.5, None])), [Struct(a=1), Struct(a=None)], {1: [1], 2: []}, {'s': {1, 2}}, {(1, 'a'): 2.5}, frozenset([1, 2]), 2**63 - 1, -(2**63), 1e308, float('nan'),
+            np.int32(5), np.int64(2**40), np.float64(1.5), np.float32(0.1), np.array([1, 2, 3]), np.array([[1.5, 2.5]]), Interval(1, 5), Interval(1.5, 2.5, True, True),
+            [Interval(1, 2), None], '', 'é\n', [[[]], [[1]]], {'': 1}, Struct(**{'x y': 1, 'é': [None]}),
+        ]
+        for j, v in enumerate(corners):
+            if ctx.replay is not None and (ctx.replay.get('phase') != 'literal-corners' or ctx.replay.get('case_index') != j):
+                continue
+            ctx.case_index = ('literal-corners', j)
+            ok, e2 = guarded('literal(corner)', lambda: hl.literal(v))
+            if ok:
+                ctx.count('contract_literal_typecheck')
+                ctx.count('literal_corners_accepted')
+                if not isinstance(v, (np.ndarray, np.generic)):
+                    try:
+                        typecheck_value(e2.dtype, v)
+                    except TypeError as err:
+                        hook.pending.append(('literal/value-does-not-satisfy-imputed-type', f'hl.literal({v!r:.80}) has dtype {e2.dtype} but typecheck fails: {str(err)[:150]}', {}))
+                    if isinstance(e2._ir, ir.EncodedLiteral):
+                        roundtrip(e2._ir, e2.dtype, v, f'hl.literal({v!r:.80}) with imputed type {e2.dtype}')
+            flush({'corner': repr(v)[:200]}, ('literal-corner', j), {'value': repr(v)[:300]})
+        ctx.case_index = None
 
     # ---- phase expr -----------------------------------------------------------------------------
     N = ctx.pick(300, 1800)
